@@ -15,6 +15,8 @@ def check(tier, seed):
     plans = []
     for cfg, n in ((0, 12000), (2, 8000), (3, 4000), (4, 6000), (5, 3000)):
         plans.append(dict(flavour="serial", label="serial-cfg%d" % cfg, args=["--cfg", cfg, "--threads", 3, "--ops", 12, "--range", 40], total=n if q else n * 40))
+    # longer histories: trees of height >= 3 (inner nodes below inner nodes), so that splits propagating through two levels race
+    plans.append(dict(flavour="serial", label="serial-deep", args=["--cfg", 0, "--threads", 3, "--ops", 40, "--range", 400, "--fixed", "--budget", 12000000], total=1500 if q else 60000))
     plans.append(dict(flavour="serial", label="serial-4threads", args=["--cfg", 0, "--threads", 4, "--ops", 10, "--range", 24, "--budget", 6000000], total=4000 if q else 200000))
     plans.append(dict(flavour="free", label="free", args=["--cfg", 0, "--threads", 8, "--ops", 4000, "--range", 6000, "--fixed"], total=48 if q else 2000, timeout=300))
     plans.append(dict(flavour="free", label="free-tuples", args=["--cfg", 2, "--threads", 8, "--ops", 3000, "--range", 3000, "--fixed"], total=32 if q else 1000, timeout=300))
